@@ -188,6 +188,17 @@ class Ctx:
             self.known_hits[fid] = text
             print("KNOWN-FINDING: property=%s %s: %s" % (self.prop, fid, text), flush=True)
 
+    def _validate_evidence(self, path):
+        """validate the evidence file against the published schema (tooling venv has jsonschema)"""
+        schema = "/root/.vp/EVIDENCE.schema.json"
+        if not (os.path.exists(schema) and shutil.which("python3-vt")):
+            return
+        code = ("import json,jsonschema,sys\n"
+                "jsonschema.validate(json.load(open(sys.argv[1])), json.load(open(sys.argv[2])))")
+        p = subprocess.run(["python3-vt", "-c", code, path, schema], stdout=subprocess.PIPE, stderr=subprocess.PIPE)
+        if p.returncode != 0:
+            raise InfraError("evidence file does not validate: " + p.stderr.decode(errors="replace")[-600:])
+
     def finish(self, level, coverage, assumptions=()):
         cov = dict(coverage)
         if self.tlc_runs:
@@ -200,6 +211,7 @@ class Ctx:
         with open(os.path.join(EVIDENCE, self.prop + ".json"), "w") as f:
             json.dump(ev, f, indent=1, sort_keys=True, default=str)
             f.write("\n")
+        self._validate_evidence(os.path.join(EVIDENCE, self.prop + ".json"))
         log("done", self.prop, "violations=%d" % len(self.violations), "wall=%.1fs" % ev["wall_s"])
         return 1 if self.violations else 0
 
